@@ -66,7 +66,8 @@ def run_scenario(sc, preempt_at=(), trace_lines=False, record=False):
     em = D.make_execmodel(s, sc["backend"])
     pool = gb.WorkerPool(em, hasprimary=sc["primary"])
     gated = sc["backend"] == "main_thread_only" and sc["primary"]
-    obs = dict(tasks={}, waitall=[], errors=[], shutdown_called=False, primary_left=False, final=None, getters=[])
+    obs = dict(tasks={}, waitall=[], errors=[], shutdown_called=False, primary_left=False, final=None, getters=[],
+               quiesced=[])  # scheduler steps at which a wait that began after the shutdown reported "nothing unfinished"
     tasks = obs["tasks"]
     release, fn_returned, getter_done = {}, {}, {}
     for si, sp in enumerate(sc["spawners"]):
@@ -82,6 +83,7 @@ def run_scenario(sc, preempt_at=(), trace_lines=False, record=False):
     def body(key):
         t = tasks[key]
         t["runs"] += 1
+        t["start_step"] = s.steps
         try:
             if t["kind"] == "block":
                 release[key].wait()
@@ -136,6 +138,8 @@ def run_scenario(sc, preempt_at=(), trace_lines=False, record=False):
             obs["shutdown_returned"] = True
         else:
             r = pool.terminate(timeout=None)
+            if r:
+                obs["quiesced"].append(s.steps)
             obs["shutdown_returned"] = True
             check_waitall_true("early-terminate", r, begin_step)
 
@@ -150,7 +154,10 @@ def run_scenario(sc, preempt_at=(), trace_lines=False, record=False):
 
     def waitaller(timeout):
         began = s.steps
+        after_shutdown = bool(obs.get("shutdown_returned"))
         r = pool.waitall(timeout)
+        if r and after_shutdown:
+            obs["quiesced"].append(s.steps)
         obs["waitall"].append((timeout, r))
         check_waitall_true("waitall", r, began)
         if timeout is None and not r:
@@ -191,6 +198,8 @@ def run_scenario(sc, preempt_at=(), trace_lines=False, record=False):
         if sc["final"] == "terminate":
             began = s.steps
             r = pool.terminate(timeout=None)
+            if r:
+                obs["quiesced"].append(s.steps)
             obs["shutdown_returned"] = True
             obs["final"] = r
             check_waitall_true("final-terminate", r, began)
@@ -199,6 +208,8 @@ def run_scenario(sc, preempt_at=(), trace_lines=False, record=False):
             obs["shutdown_returned"] = True
             began = s.steps
             r = pool.waitall(None)
+            if r:
+                obs["quiesced"].append(s.steps)
             obs["final"] = r
             check_waitall_true("final-waitall", r, began)
         # truthful replies
@@ -261,6 +272,15 @@ def judge(sc, s, obs):
     if obs["errors"]:
         e = obs["errors"][0]
         raise Violation("pool." + e[0], repr(obs["errors"][:4]))
+    if obs.get("quiesced"):
+        # once the pool is shut down AND a wait has reported that nothing is unfinished, nothing may start any more:
+        # acceptance is atomic with the shutdown flag, so an accepted task was in the running set before that wait
+        q = min(obs["quiesced"])
+        late = [k for k, t in obs["tasks"].items() if t.get("start_step") is not None and t["start_step"] > q]
+        if late:
+            raise Violation("pool.task-started-after-quiescence", f"tasks {late} started running after terminate()/waitall() on "
+                            f"the shut-down pool had returned True (step {q}; starts at "
+                            f"{[obs['tasks'][k]['start_step'] for k in late]})")
     if sc["primary"] and not obs["primary_left"]:
         raise Violation("pool.primary-stuck", "integrate_as_primary_thread did not return after shutdown")
     if obs["final"] is not True:
